@@ -19,7 +19,7 @@ This file adds what they leave out:
   (`strSliceFrom`).  The Rust code does this lazily line by line; the model checks all lines first — the theorems
   show the check never fires, so the order cannot be observed;
 * `read_field_type` counts `[` in a `u8` (`array_dimension += 1`, guarded by `== 255`): `bracketsChecked`;
-* `get_arguments_size` counts argument slots in a `u8` without a guard: `argsSize` (sites 7, 8).
+* `get_arguments_size` counts argument slots in a `u8`; since cf30e8c with `checked_add`: `argsSize` (former sites 7, 8).
 -/
 
 namespace Total.Text
@@ -114,8 +114,8 @@ def argsLoop : Nat → Nat → JStr → TM Nat
       | 0 => fail
       | fuel + 1 =>
         if c = 68 ∨ c = 74 then do
-          let size ← addU8 Sites.argSizeWide size 2
-          argsLoop fuel size rest
+          guard (size + 2 ≤ 255)                       -- cf30e8c: `size.checked_add(2)` (former site 7)
+          argsLoop fuel (size + 2) rest
         else
           match skipBrackets (c :: rest) with
           | [] => fail
@@ -124,11 +124,11 @@ def argsLoop : Nat → Nat → JStr → TM Nat
               match skipName r with
               | none => fail
               | some r' => do
-                let size ← addU8 Sites.argSizeOne size 1
-                argsLoop fuel size r'
+                guard (size + 1 ≤ 255)                 -- `size.checked_add(1)` (former site 8)
+                argsLoop fuel (size + 1) r'
             else do
-              let size ← addU8 Sites.argSizeOne size 1
-              argsLoop fuel size r
+              guard (size + 1 ≤ 255)
+              argsLoop fuel (size + 1) r
 
 /-- `get_arguments_size` -/
 def argsSize (s : JStr) : TM Nat :=
